@@ -416,6 +416,8 @@ class Spec:
             r = ListView(self.view(x, heap) for x in v.items)
             r.raw = v
             return r
+        if isinstance(v, VDict) and getattr(v, "sym", None) is not None:
+            return self.view(v.sym, heap)          # a display that became a heap map
         if isinstance(v, VDict):
             r = DictView((k, self.view(x, heap)) for k, x in v.items.items())
             r.raw = v
